@@ -3,3 +3,7 @@
 package pubsub
 
 func verifAt(string) {}
+
+func verifGuard(string, any) {}
+
+func verifGuardOwner(any, any) {}
